@@ -9,7 +9,7 @@
     defrag <0|1>                                                         -> ok <0|1> ; <state>
     get <k>                                                              -> some <val> | none ; <state>
     browse <k:fl,k:fl|->               walk returns fl for key k         -> <k=len.hash,…|-> ; <state>
-    peek                               BrowseAll, walk returns 0         -> <k=len.hash,…|-> ; <state>
+    peek                               Count, then BrowseAll (walk returns 0)  -> <n> <k=len.hash,…|-> ; <state>
     count                                                                -> <n>
     crash                              for the last state-changing request: the directory after every
                                        prefix of its effects, reopened (non-volatile, load, default opts)
@@ -30,7 +30,7 @@ structure S where
   lastEffs : List (String × Effect) := []
 
 def fnv (b : Bytes) : Nat :=
-  b.foldl (fun h x => ((h ^^^ x.toNat) * 0x100000001b3) % 2^64) 0xcbf29ce484222325
+  (b.foldl (fun (h : UInt64) x => (h ^^^ x.toUInt64) * 0x100000001b3) 0xcbf29ce484222325).toNat
 
 def hex8 (n : Nat) : String := Hex.encodeRaw (beBytes 4 n)
 
@@ -153,7 +153,7 @@ def step (s : S) (toks : List String) : S × String :=
     match parseWalk w with
     | some w => mutate s fun db => let (d, out) := browse db w; (d, kvStr out)
     | none => bad
-  | ["peek"] => mutate s fun db => let (d, out) := browseAll db []; (d, kvStr out)
+  | ["peek"] => mutate s fun db => let (d, out) := browseAll db []; (d, s!"{count d} {kvStr out}")
   | ["count"] =>
     match s.db with
     | some db => (s, s!"{count db}")
